@@ -270,6 +270,10 @@ def case_from_json(c):
     return c
 
 
+class _Raised(object):
+    pass
+
+
 def run_impl(case):
     global _TR
     loader = _xtuml.ModelLoader()
@@ -278,14 +282,23 @@ def run_impl(case):
     before = sum(len(m.find_metaclass(c).storage) for c, _ in G.CLASSES)
     tr = {'cond': {}, 'loops': {}, 'exec': {}, 'outcomes': {}}
     _TR = tr
+    raised = None
     try:
         ret = _interpret.run_function(m, 'case%s' % case.get('id'), case['text'], dict(case['kwargs']))
+    except Exception as ex:        # a program of the domain must not raise: a finding, reported with the program
+        raised = '%s: %s' % (type(ex).__name__, str(ex)[:200])
+        ret = _Raised()
     finally:
         _TR = None
     obs = canon_impl(m, ret)
     fails = []
     exp = case.get('expect')
-    if exp is not None and obs != exp:
+    if raised is not None:
+        obs = ['raised', raised.split(':')[0]]
+        fails.append({'sig': 'exception:' + raised.split(':')[0],
+                      'what': 'the interpreter raised %s; the language defines the result %r\nprogram:\n%s\nkwargs: %r\npopulation: %r' % (
+                          raised, exp[1] if exp else None, case['text'], case['kwargs'], case['pop'])})
+    elif exp is not None and obs != exp:
         comp = 'shape'
         what = ''
         if len(obs) != len(exp):
